@@ -144,6 +144,7 @@ class FeeField(DataflowTransactionContext):
             arg1 = ins_stack_value.args[0]
             arg2 = ins_stack_value.args[1]
             compared_value: Optional[FeeValue] = None
+            field_is_second_operand = False
 
             if isinstance(arg1, UnknownStackValue) and isinstance(arg2, UnknownStackValue):
                 # Both the args are unknown
@@ -156,6 +157,7 @@ class FeeField(DataflowTransactionContext):
                     return FeeValue(), FeeValue()
                 # arg2 is related to key and arg1 is some unknown value
                 compared_value = FeeValue(is_unknown=True)
+                field_is_second_operand = True
             elif isinstance(arg2, UnknownStackValue):
                 if not isinstance(arg1, UnknownStackValue) and not is_value_matches_key(key, arg1):
                     # arg2 is unknown and arg1 is not related to "key"
@@ -175,12 +177,20 @@ class FeeField(DataflowTransactionContext):
                     compared_value = FeeValue(value=value)
                 else:
                     compared_value = FeeValue(is_unknown=True)
+                field_is_second_operand = True
 
             if compared_value is None:
                 # compared_value is not int.
                 return FeeValue(), FeeValue()
 
             ins = ins_stack_value.instruction
+            if field_is_second_operand:
+                # `int c; txn Fee; <` computes `c < Fee` i.e `Fee > c`
+                mirrored = {Less: Greater, LessE: GreaterE, Greater: Less, GreaterE: LessE}
+                for cls, mirrored_cls in mirrored.items():
+                    if isinstance(ins, cls):
+                        ins = mirrored_cls()
+                        break
             return self._get_asserted_max_value(ins, compared_value)
         return FeeValue(), FeeValue()
 
